@@ -273,16 +273,16 @@ def run(ctx):
         disagreements.extend({"seed": base + k} for k in failing[3:30])
     oracle_failures = []
     descs = []
-    m = ctx.scale(120, 1500, 500)
+    m = ctx.scale(240, 1500, 500)
     for i in range(m):
         d, f = h2_pressure(ctx.seed * 7919 + i)
         descs.append(d)
         oracle_failures.extend(f)
-    for i in range(ctx.scale(40, 400, 150)):
+    for i in range(ctx.scale(80, 400, 150)):
         d, f = h1_pressure(ctx.seed * 7919 + i)
         descs.append(d)
         oracle_failures.extend(f)
-    for i in range(ctx.scale(30, 300, 100)):
+    for i in range(ctx.scale(80, 300, 100)):
         d, f = ws_h2_pressure(ctx.seed * 7919 + i)
         descs.append(d)
         oracle_failures.extend(f)
